@@ -67,7 +67,11 @@ def value_programs(vals, gates, widths):
 # no double quotes / backslashes: the lexer has no escaped quote and prints `\\` as two characters (calibration,
 # recorded in DESIGN.md); everything else, multi-byte UTF-8 included, must come out byte-identical
 WORDS = ["abc", "é", "日本語", "x y", " ", "ß→∑", "a,b;c", "it's", "100%", "50% off", "{}", "{x}", "}{", "{{",
-         "🙂", "END?", "%", "% d", "a%%b", "<tag>", "#", "~`!@$^&*()-_=+[]|:;'<>,.?/"]
+         "🙂", "END?", "%", "% d", "a%%b", "<tag>", "#", "~`!@$^&*()-_=+[]|:;'<>,.?/",
+         "a sentence of ordinary words that is rather longer than sixty-four bytes in total, is it not",
+         "日本語のかなり長い文章でございます、六十四バイトを超えますのでご注意ください",
+         "x" * 63, "y" * 64, "z" * 65, "w" * 300]
+LONG_STRS = [w for w in WORDS if len(w.encode("utf-8")) >= 60 and "%" not in w]
 
 
 def text_programs(seed, n, gates):
@@ -113,12 +117,12 @@ def text_programs(seed, n, gates):
                     elif c == 1:
                         fmt += "%%"
                     elif c == 2:
-                        fmt += "%s"; args.append("(s %s)" % q(r.choice(["str", "é日本", "", "a b"])))
+                        fmt += "%s"; args.append("(s %s)" % q(r.choice(["str", "é日本", "", "a b"] + (LONG_STRS if r.chance(30) else []))))
                     elif c == 3:
                         fmt += "%c"; args.append("(e (lit %d))" % r.range(33, 126))
                     else:
                         fl = r.choice(["", "", "0"])      # `-` is not among the documented flags
-                        wd = r.choice(["", "", "1", "3", "6", "12"])
+                        wd = r.choice(["", "", "1", "3", "6", "12", "20", "63", "64", "65", "80"])
                         fmt += "%" + fl + wd + r.choice(["d", "lld"])
                         args.append("(e (lit %d))" % r.choice([0, 7, -7, 42, -42, 123456, -123456, 2**40, -(2**40)]))
                 # (too few arguments is undefined in C printf and not specified for Cb: not generated)
